@@ -23,6 +23,7 @@ import (
 	"os"
 	"os/exec"
 	"path/filepath"
+	"regexp"
 	"strconv"
 	"strings"
 
@@ -34,6 +35,12 @@ func main() {
 }
 
 // ---------------------------------------------------------------- helpers
+
+var (
+	reDelAdd    = regexp.MustCompile(`delete\(add, \w+\)`)
+	reDelUpdate = regexp.MustCompile(`delete\(update, \w+\)`)
+	reDelDel    = regexp.MustCompile(`delete\(del, \w+\)`)
+)
 
 type problems struct{ list []string }
 
@@ -816,6 +823,7 @@ func genOpts(c *trlib.Ctx) error {
 			c.RecordShapes("msgstorage/msgstorage.go", f, "MsgStorage.persist", "MsgStorage.periodicPersist", "MsgStorage.PurgeQueue")
 			var posBatch, posConfirm, posLock, posUnlock, posClean token.Pos
 			var order []string
+			sawCancelLoop, sawRmLoop := false, false
 			for _, st := range fd.Body.List {
 				// top-level statement containing ProcessBatch
 				if len(findCallsSel(st, "ProcessBatch")) > 0 && posBatch == 0 {
@@ -856,14 +864,16 @@ func genOpts(c *trlib.Ctx) error {
 							pb.add("persist: batch loop over %s", trlib.ExprString(rs.X))
 						}
 					}
-					// cancellation loop: ranges over del, deletes from add and update
+					// cancellation loop: ranges over del without building the batch; `delete(add, <key>)`, `delete(update, <key>)`
 					if trlib.ExprString(rs.X) == "del" && !strings.Contains(nodeString(rs.Body), "batch") {
 						src := nodeString(rs.Body)
-						delCancelsAdd = strings.Contains(src, "delete(add, delKey)")
-						delDropsUpdate = strings.Contains(src, "delete(update, delKey)")
-					}
-					if trlib.ExprString(rs.X) == "rmDel" {
-						cancelledDelRemoved = strings.Contains(nodeString(rs.Body), "delete(del, delKey)")
+						sawCancelLoop = true
+						delCancelsAdd = reDelAdd.MatchString(src)
+						delDropsUpdate = reDelUpdate.MatchString(src)
+					} else if !strings.Contains(nodeString(rs.Body), "batch") && reDelDel.MatchString(nodeString(rs.Body)) {
+						// second pass: the cancelled keys are removed from del as well
+						cancelledDelRemoved = true
+						sawRmLoop = true
 					}
 				}
 				if es, ok := st.(*ast.ExprStmt); ok {
@@ -889,14 +899,12 @@ func genOpts(c *trlib.Ctx) error {
 			} else {
 				pb.add("persist: expected three batch-building loops, found %d", len(order))
 			}
-			hasRm := false
-			for _, st := range fd.Body.List {
-				if rs, ok := st.(*ast.RangeStmt); ok && trlib.ExprString(rs.X) == "rmDel" {
-					hasRm = true
-				}
-			}
-			if !hasRm {
+			if !sawRmLoop {
 				cancelledDelRemoved = false
+			}
+			if !sawCancelLoop {
+				delCancelsAdd, delDropsUpdate = false, false
+				pb.add("persist: no loop over del that cancels adds and updates")
 			}
 		} else {
 			pb.add("persist missing")
